@@ -15,12 +15,15 @@ def mk(name, f, goals):
 H = {'normalize': mk('normalize', times.scen_normalize, ('aware', 'naive')),
      'compare': mk('compare', times.scen_compare, ('aware', 'naive')),
      'marshall': mk('marshall', times.scen_marshall, ('utc', 'naive'))}
+H['fixture'] = R.Harness('fixture', times.scen_fixture, times.load_sym_fx,
+                         times.load_real_fx)
+H['fixture'].required_goals = ('done',)
 
 
 def build_jobs(tier, seed):
     J = common.Job
     return [J(H['normalize'], {}), J(H['compare'], {}),
-            J(H['marshall'], {})]
+            J(H['marshall'], {}), J(H['fixture'], {})]
 
 
 def describe(tier):
@@ -39,7 +42,9 @@ def describe(tier):
         'calendar dates), naive and UTC; leap second',
         'outside': 'parse_isotime / ISO-string arguments (iso8601 not '
         'encoded), named zones (zoneinfo), list-valued overrides, fractional '
-        'second counts, the non-overridden clock, TimeFixture',
+        'second counts, the non-overridden clock',
+        'TimeFixture': 'setUp / advance_time_delta / advance_time_seconds / '
+        'cleanUp over the same symbolic instants',
     }
 
 
